@@ -30,6 +30,7 @@ type job struct {
 type obsv struct {
 	Plan string `json:"plan"` // digest of the full plan dump ("ERR:..." when planning failed)
 	Reqs string `json:"reqs"` // digest of the sorted subgraph request list of a fresh engine
+	XReq string `json:"xreq"` // the same with fragment-free queries (minification undone)
 	NReq int    `json:"nreq"`
 }
 
@@ -81,15 +82,17 @@ func planOnce(lab *fedlab.Lab, planner *plan.Planner, j job) (dump string) {
 	return "NORMALIZED " + p.Normalized + "\n" + c09lab.Dump(pl)
 }
 
-func reqsOnce(e *detEnv, j job, o c09lab.OptionSet) (string, int, []string) {
+func reqsOnce(e *detEnv, j job, o c09lab.OptionSet) (string, int, []string, string) {
 	lab, err := e.lab(j, o)
 	if err != nil {
-		return "ERR:lab", 0, nil
+		return "ERR:lab", 0, nil, "ERR:lab"
 	}
 	defer lab.Close()
 	ob := c09lab.Run(lab, &c09lab.Spelled{Text: j.Text, Variables: j.Vars, OpName: j.Name})
 	keys := ob.SortedReqKeys()
-	return c09lab.Digest(strings.Join(keys, "\n") + "\n" + c09lab.RespTree(ob).String()), len(keys), keys
+	resp := c09lab.RespTree(ob).String()
+	return c09lab.Digest(strings.Join(keys, "\n") + "\n" + resp), len(keys), keys,
+		c09lab.Digest(strings.Join(ob.SortedExpandedReqKeys(), "\n") + "\n" + resp)
 }
 
 // detchild: one fresh process; prints one JSON object per (job, option set).
@@ -118,8 +121,8 @@ func detchild(a map[string]string) {
 			}
 			d := planOnce(lab, nil, j)
 			lab.Close()
-			rd, n, keys := reqsOnce(e, j, o)
-			ob := obsv{Plan: c09lab.Digest(d), Reqs: rd, NReq: n}
+			rd, n, keys, xd := reqsOnce(e, j, o)
+			ob := obsv{Plan: c09lab.Digest(d), Reqs: rd, NReq: n, XReq: xd}
 			b, _ := json.Marshal(ob)
 			w.Write(b)
 			w.WriteByte('\n')
@@ -250,9 +253,10 @@ func det(a map[string]string) {
 	e := &detEnv{exec: ex}
 
 	type cell struct {
-		plans, reqs [][2]string // (label, digest)
+		plans, reqs, xreqs [][2]string // (label, digest)
 		dumps       map[string]string
 		nreq        int
+		freshErr    bool
 	}
 	cells := make([][]*cell, len(jobs))
 	for ji := range jobs {
@@ -275,13 +279,18 @@ func det(a map[string]string) {
 				dg := c09lab.Digest(d)
 				c.plans = append(c.plans, [2]string{fmt.Sprintf("fresh%d", k), dg})
 				c.dumps[dg] = d
+				if strings.HasPrefix(d, "ERR:") {
+					c.freshErr = true
+				}
 			}
 			lab.Close()
-			rd, nq, _ := reqsOnce(e, j, o)
+			rd, nq, _, xd := reqsOnce(e, j, o)
 			c.reqs = append(c.reqs, [2]string{"engine0", rd})
+			c.xreqs = append(c.xreqs, [2]string{"engine0", xd})
 			c.nreq = nq
-			rd2, _, _ := reqsOnce(e, j, o)
+			rd2, _, _, xd2 := reqsOnce(e, j, o)
 			c.reqs = append(c.reqs, [2]string{"engine1", rd2})
+			c.xreqs = append(c.xreqs, [2]string{"engine1", xd2})
 		}
 		// one planner per configuration, reused over all jobs of that configuration in order and
 		// then in reverse order: every job is planned after OTHER operations were planned
@@ -330,13 +339,36 @@ func det(a map[string]string) {
 			for si := range sets {
 				cells[ji][si].plans = append(cells[ji][si].plans, [2]string{fmt.Sprintf("proc%d", p), cr.obs[ji][si].Plan})
 				cells[ji][si].reqs = append(cells[ji][si].reqs, [2]string{fmt.Sprintf("proc%d", p), cr.obs[ji][si].Reqs})
+				cells[ji][si].xreqs = append(cells[ji][si].xreqs, [2]string{fmt.Sprintf("proc%d", p), cr.obs[ji][si].XReq})
 			}
 		}
+	}
+	// the raw fetch list of every job's plan (default planner configuration), through the real
+	// de-duplication stage alone: corr:C09/dedup and the plan hypotheses on real plans
+	for _, j := range jobs {
+		lab, err := e.lab(j, c09lab.DefaultOptions)
+		if err != nil {
+			continue
+		}
+		sp := &c09lab.Spelled{Text: j.Text, Variables: j.Vars, OpName: j.Name}
+		if p, err := c09lab.Prepare(lab.Schema, sp); err == nil {
+			if planner, err := plan.NewPlanner(c09lab.PlannerConfig(lab.Engine)); err == nil {
+				if pl, err := c09lab.PlanRaw(planner, lab.Schema, p); err == nil {
+					if line, ok := realDedup(pl); ok {
+						out.Line(line)
+					}
+				}
+			}
+		}
+		lab.Close()
 	}
 	for ji, j := range jobs {
 		for si, o := range sets {
 			c := cells[ji][si]
-			var ps, rs []string
+			var ps, rs, xs []string
+			for _, x := range c.xreqs {
+				xs = append(xs, common.L("r", common.QS(x[0]), common.QS(x[1])))
+			}
 			distinct := map[string]bool{}
 			for _, x := range c.plans {
 				ps = append(ps, common.L("p", common.QS(x[0]), common.QS(x[1])))
@@ -356,14 +388,9 @@ func det(a map[string]string) {
 			} else if len(distinct) > 1 {
 				note = "differs across processes only; rerun: c09 detchild -full 1 -only " + fmt.Sprint(ji)
 			}
-			planErr := "f"
-			for d := range c.dumps {
-				if strings.HasPrefix(c.dumps[d], "ERR:") {
-					planErr = "t"
-				}
-			}
+			planErr := common.B(c.freshErr)
 			out.Line(common.L("c09", "det", j.Cfg, common.I64(int64(j.USeed)), common.QS(o.String()), common.QS(j.Style), common.QS(j.Text), common.QS(j.Vars), common.QS(j.Name),
-				common.L(append([]string{"plans"}, ps...)...), common.L(append([]string{"reqs"}, rs...)...),
+				common.L(append([]string{"plans"}, ps...)...), common.L(append([]string{"reqs"}, rs...)...), common.L(append([]string{"xreqs"}, xs...)...),
 				common.L("nreq", common.I(c.nreq)), common.L("planerr", planErr), common.L("note", common.QS(note))))
 		}
 	}
